@@ -101,6 +101,15 @@ func init() {
 		fr.i.path.memo["url|"+tStr(u)] = urlParts{scheme: a[0], host: a[1], path: a[2]}
 		return u
 	}
+	setUser := func(i *interpreter, pu *value, user, pass value, passSet bool) {
+		ut, us := i.newStruct("net/url", "Userinfo")
+		us[i.fieldIndex(ut, "username")] = user
+		us[i.fieldIndex(ut, "password")] = pass
+		us[i.fieldIndex(ut, "passwordSet")] = passSet
+		ucell := value(us)
+		urlT := i.namedType("net/url", "URL")
+		(*pu).(structure)[i.fieldIndex(urlT, "User")] = &ucell
+	}
 	parse := func(fr *frame, raw value) (*value, value) {
 		i := fr.i
 		if c, ok := raw.(string); ok {
@@ -109,19 +118,17 @@ func init() {
 				return nil, i.newError(err.Error())
 			}
 			p := i.mkURL(u.Scheme, u.Host, u.Path, u.RawQuery)
+			if u.User != nil {
+				pw, set := u.User.Password()
+				setUser(i, p, u.User.Username(), pw, set)
+			}
 			return p, nilErr()
 		}
 		if m, ok := i.path.memo["url|"+tStr(raw)]; ok {
 			up := m.(urlParts)
 			pu := i.mkURL(up.scheme, up.host, up.path, "")
 			if up.user != nil {
-				ut, us := i.newStruct("net/url", "Userinfo")
-				us[i.fieldIndex(ut, "username")] = up.user
-				us[i.fieldIndex(ut, "password")] = up.pass
-				us[i.fieldIndex(ut, "passwordSet")] = true
-				ucell := value(us)
-				urlT := i.namedType("net/url", "URL")
-				(*pu).(structure)[i.fieldIndex(urlT, "User")] = &ucell
+				setUser(i, pu, up.user, up.pass, true)
 			}
 			return pu, nilErr()
 		}
@@ -193,8 +200,22 @@ func init() {
 		t := i.namedType("net/url", "URL")
 		s := (*pv).(structure)
 		sch, host, path, q := s[i.fieldIndex(t, "Scheme")], s[i.fieldIndex(t, "Host")], s[i.fieldIndex(t, "Path")], s[i.fieldIndex(t, "RawQuery")]
+		var ui *url.Userinfo
+		if up, ok := s[i.fieldIndex(t, "User")].(*value); ok && up != nil {
+			ut := i.namedType("net/url", "Userinfo")
+			us := (*up).(structure)
+			un, pw, set := us[i.fieldIndex(ut, "username")], us[i.fieldIndex(ut, "password")], us[i.fieldIndex(ut, "passwordSet")]
+			setc, isb := set.(bool)
+			if !concreteStrs(un, pw, sch, host, path, q) || !isb {
+				unsup("(*url.URL).String with symbolic parts and userinfo")
+			}
+			ui = url.User(un.(string))
+			if setc {
+				ui = url.UserPassword(un.(string), pw.(string))
+			}
+		}
 		if concreteStrs(sch, host, path, q) {
-			u := url.URL{Scheme: sch.(string), Host: host.(string), Path: path.(string), RawQuery: q.(string)}
+			u := url.URL{Scheme: sch.(string), Host: host.(string), Path: path.(string), RawQuery: q.(string), User: ui}
 			return u.String()
 		}
 		r := mkConcat(mkConcat(mkConcat(sch, "://"), host), path)
